@@ -9,9 +9,11 @@ from pathlib import Path
 
 VERIF = Path(__file__).resolve().parent.parent
 logs = " ".join(Path(p).read_text() for p in sys.argv[1:])
-pat = re.compile(r"SEED (/tmp/seed_(C\d+)/_out/(\w+)) prop=(C\d+) tests=\[([^\]]*)\] demo_base=(\d+) demo_mut=(\d+) check_rc=(\d+)(.*)")
+pat = re.compile(r"SEED (/tmp/seed_(\w+)/_out/([\w-]+)) prop=(C\d+) tests=\[([^\]]*)\] demo_base=(\d+) demo_mut=(\d+) check_rc=(\d+)(.*)")
 for m in pat.finditer(logs):
-    src, prop, x, p2, tests, db, dm, rc, rest = m.groups()
+    src, grp, x, prop, tests, db, dm, rc, rest = m.groups()
+    if "-" in x:
+        x = x.split("-", 1)[1]
     src = Path(src)
     dst = VERIF / "seeded" / f"{prop}-{x}"
     dst.mkdir(parents=True, exist_ok=True)
